@@ -254,4 +254,19 @@ def priority_scheduler(s, results: List[ExecutionResult],
             susobj = Suspend(sus.container_id, sus.pool_id)
             suspensions.append(susobj)
 
+            # Remember the preempted work right away: a write-out that
+            # takes a single tick is over before the next scheduling round,
+            # so the container never shows up in suspending_containers and
+            # its job would otherwise never be queued again.
+            ops = [op for op in sus.operators if op.state() != OperatorState.COMPLETED]
+            retry_stats = RetryStats(
+                old_ram=sus.assignment.ram,
+                old_cpu=sus.assignment.cpu,
+                error=sus.error,
+                container_id=sus.container_id,
+                pool_id=sus.pool_id,
+            )
+            s.suspending[sus.container_id] = WaitingQueueJob(priority=sus.priority, p=ops[0].pipeline,
+                                                             ops=ops, retry_stats=retry_stats)
+
     return suspensions, new_assignments
